@@ -1,13 +1,194 @@
-src=open(__import__('os').environ.get('MAPRS','/repo/eqlog-runtime/src/wbtree/map.rs')).read().split('\n')
-def L(a,b): return '\n'.join(src[a-1:b])
-def sub(text, old, new, count=1):
-    assert text.count(old)>=1, ("anchor lost", old)
-    return text.replace(old,new,count)
-out=[open('spec.rs').read()]
+#![feature(allocator_api)]
+#![feature(clone_to_uninit)]
+#![feature(sized_hierarchy)]
+#![allow(unused_imports)]
+use vstd::prelude::*;
+use std::rc::Rc;
+use std::cmp::Ordering;
+use std::mem;
+verus! {
 
-# ---- DataNode::update_size_internal (lines 23-27)
-t=L(23,27)
-t=sub(t,'fn update_size_internal(&mut self) {','''fn update_size_internal(&mut self)
+global size_of usize == 8;
+
+pub assume_specification<T: std::marker::MetaSized + ?Sized, A: std::alloc::Allocator> [<std::rc::Rc<T, A> as std::convert::AsRef<T>>::as_ref] (r: &std::rc::Rc<T, A>) -> (o: &T)
+    ensures o == &**r;
+pub assume_specification<T: std::marker::MetaSized + ?Sized + std::clone::CloneToUninit, A: std::alloc::Allocator + Clone> [std::rc::Rc::<T, A>::make_mut] (r: &mut std::rc::Rc<T, A>) -> (o: &mut T)
+    ensures &*o == &**old(r), &**final(r) == &*final(o);
+pub assume_specification<T: Clone, A: std::alloc::Allocator> [std::rc::Rc::<T, A>::unwrap_or_clone] (r: std::rc::Rc<T, A>) -> (o: T)
+    ensures o == *r;
+pub assume_specification<T> [std::mem::replace] (dest: &mut T, src: T) -> (r: T)
+    ensures r == *old(dest), *final(dest) == src;
+pub assume_specification<T, U, F: FnOnce(T) -> U> [std::option::Option::<T>::map_or] (o: Option<T>, default: U, f: F) -> (r: U)
+    requires o is Some ==> f.requires((o->0,)),
+    ensures match o { None => r == default, Some(x) => f.ensures((x,), r) };
+
+#[verifier::external_body]
+pub struct PrefixTree2 { x: u32 }
+impl Clone for PrefixTree2 {
+    #[verifier::external_body]
+    fn clone(&self) -> Self { unimplemented!() }
+}
+
+#[derive(Clone)]
+pub struct DataNode<V: Clone> {
+    pub key: u32,
+    pub value: V,
+    pub left: Option<Rc<Node<V>>>,
+    pub right: Option<Rc<Node<V>>>,
+    pub size: usize, // Total number of nodes in this subtree
+}
+
+#[derive(Clone)]
+pub struct MappingNode<V: Clone> {
+    pub mapping: PrefixTree2,
+    pub child: Option<Rc<Node<V>>>,
+}
+
+#[derive(Clone)]
+#[allow(dead_code)]
+pub enum Node<V: Clone> {
+    Data(DataNode<V>),
+    Mapping(MappingNode<V>),
+}
+
+pub type Tree<V> = Option<Rc<Node<V>>>;
+
+pub const DELTA: usize = 3;
+pub const GAMMA: usize = 2;
+
+// ---------------- specification ----------------
+pub open spec fn is_data<V: Clone>(t: Tree<V>) -> bool { t is Some && *(t->0) is Data }
+pub open spec fn dn<V: Clone>(t: Tree<V>) -> DataNode<V> { (*(t->0))->Data_0 }
+pub open spec fn lft<V: Clone>(t: Tree<V>) -> Tree<V> { if is_data(t) { dn(t).left } else { None } }
+pub open spec fn rgt<V: Clone>(t: Tree<V>) -> Tree<V> { if is_data(t) { dn(t).right } else { None } }
+
+pub open spec fn nsz<V: Clone>(t: Tree<V>) -> nat
+    decreases t
+{
+    match t {
+        None => 0,
+        Some(rc) => match *rc {
+            Node::Data(d) => 1 + nsz(d.left) + nsz(d.right),
+            Node::Mapping(_) => 0,
+        },
+    }
+}
+
+/// mapping-free, keys strictly inside (lo, hi), BST ordered, cached sizes exact.
+pub open spec fn bst<V: Clone>(t: Tree<V>, lo: int, hi: int) -> bool
+    decreases t
+{
+    match t {
+        None => true,
+        Some(rc) => match *rc {
+            Node::Data(d) => lo < d.key < hi && bst(d.left, lo, d.key as int) && bst(d.right, d.key as int, hi)
+                && d.size == 1 + nsz(d.left) + nsz(d.right),
+            Node::Mapping(_) => false,
+        },
+    }
+}
+
+pub open spec fn tb<V: Clone>(t: Tree<V>) -> bool { exists|lo: int, hi: int| #[trigger] bst(t, lo, hi) }
+
+pub open spec fn wbal(l: nat, r: nat) -> bool {
+    l + r < 2 || ((r + 1) <= 3 * (l + 1) && (l + 1) <= 3 * (r + 1))
+}
+
+pub open spec fn bal<V: Clone>(t: Tree<V>) -> bool
+    decreases t
+{
+    match t {
+        None => true,
+        Some(rc) => match *rc {
+            Node::Data(d) => wbal(nsz(d.left), nsz(d.right)) && bal(d.left) && bal(d.right),
+            Node::Mapping(_) => false,
+        },
+    }
+}
+
+pub open spec fn view<V: Clone>(t: Tree<V>) -> Map<u32, V>
+    decreases t
+{
+    match t {
+        None => Map::empty(),
+        Some(rc) => match *rc {
+            Node::Data(d) => view(d.left).union_prefer_right(view(d.right)).insert(d.key, d.value),
+            Node::Mapping(_) => Map::empty(),
+        },
+    }
+}
+
+pub proof fn lemma_size_bound<V: Clone>(t: Tree<V>, lo: int, hi: int)
+    requires bst(t, lo, hi)
+    ensures nsz(t) <= (if hi - lo - 1 > 0 { hi - lo - 1 } else { 0 }),
+    decreases t
+{
+    match t {
+        None => {},
+        Some(rc) => match *rc {
+            Node::Data(d) => { lemma_size_bound(d.left, lo, d.key as int); lemma_size_bound(d.right, d.key as int, hi); },
+            Node::Mapping(_) => {},
+        },
+    }
+}
+
+pub proof fn lemma_bst_widen<V: Clone>(t: Tree<V>, lo: int, hi: int, lo2: int, hi2: int)
+    requires bst(t, lo, hi), lo2 <= lo, hi <= hi2
+    ensures bst(t, lo2, hi2)
+    decreases t
+{
+    match t {
+        None => {},
+        Some(rc) => match *rc {
+            Node::Data(d) => { lemma_bst_widen(d.left, lo, d.key as int, lo2, d.key as int); lemma_bst_widen(d.right, d.key as int, hi, d.key as int, hi2); },
+            Node::Mapping(_) => {},
+        },
+    }
+}
+
+/// keys are u32, so any bst is a bst within (-1, 2^32)
+pub proof fn lemma_bst_u32<V: Clone>(t: Tree<V>, lo: int, hi: int)
+    requires bst(t, lo, hi)
+    ensures bst(t, if lo < -1 { -1 } else { lo }, if hi > 0x1_0000_0000 { 0x1_0000_0000 } else { hi }), nsz(t) <= 0x1_0000_0000
+    decreases t
+{
+    let lo2 = if lo < -1 { -1 } else { lo }; let hi2: int = if hi > 0x1_0000_0000 { 0x1_0000_0000 } else { hi };
+    match t {
+        None => {},
+        Some(rc) => match *rc {
+            Node::Data(d) => {
+                lemma_bst_u32(d.left, lo, d.key as int); lemma_bst_u32(d.right, d.key as int, hi);
+                lemma_bst_widen(d.left, if lo < -1 { -1 } else { lo }, d.key as int, lo2, d.key as int);
+                lemma_bst_widen(d.right, d.key as int, if hi > 0x1_0000_0000 { 0x1_0000_0000 } else { hi }, d.key as int, hi2);
+            },
+            Node::Mapping(_) => {},
+        },
+    }
+    lemma_size_bound(t, lo2, hi2);
+}
+
+pub proof fn lemma_view_dom<V: Clone>(t: Tree<V>, lo: int, hi: int)
+    requires bst(t, lo, hi)
+    ensures forall|k: u32| #[trigger] view(t).contains_key(k) ==> lo < k < hi,
+    decreases t
+{
+    match t {
+        None => {},
+        Some(rc) => match *rc {
+            Node::Data(d) => {
+                lemma_view_dom(d.left, lo, d.key as int); lemma_view_dom(d.right, d.key as int, hi);
+                assert forall|k: u32| #[trigger] view(t).contains_key(k) implies lo < k < hi by {
+                    if k != d.key { assert(view(d.left).contains_key(k) || view(d.right).contains_key(k)); }
+                }
+            },
+            Node::Mapping(_) => {},
+        },
+    }
+}
+
+
+impl<V: Clone> DataNode<V> {
+    fn update_size_internal(&mut self)
         requires exists|lo: int, hi: int| #[trigger] bst(old(self).left, lo, hi),
                  exists|lo: int, hi: int| #[trigger] bst(old(self).right, lo, hi),
         ensures final(self).size == 1 + nsz(old(self).left) + nsz(old(self).right),
@@ -19,19 +200,28 @@ t=sub(t,'fn update_size_internal(&mut self) {','''fn update_size_internal(&mut s
             lemma_bst_u32(self.left, lo, hi);
             let (lo2, hi2) = choose|lo: int, hi: int| #[trigger] bst(self.right, lo, hi);
             lemma_bst_u32(self.right, lo2, hi2);
-        }''')
-out.append(t)
-
-out.append('impl<V: Clone> Node<V> {')
-# ---- new (71-79)
-t=L(71,79)
-t=sub(t,'fn new(key: u32, value: V) -> Self {','''fn new(key: u32, value: V) -> (res: Self)
+        }
+        self.size = 1 + Node::size(&self.left) + Node::size(&self.right);
+    }
+}
+impl<V: Clone> Node<V> {
+    fn new(key: u32, value: V) -> (res: Self)
         ensures res == Node::Data(DataNode { key, value, left: None, right: None, size: 1 }),
-    {''')
-out.append(t)
-# ---- new_data_node (103-118)
-t=L(104,118)
-t=sub(t,''') -> Rc<Node<V>> {''',''') -> (res: Rc<Node<V>>)
+    {
+        Self::Data(DataNode {
+            key,
+            value,
+            left: None,
+            right: None,
+            size: 1,
+        })
+    }
+    fn new_data_node(
+        key: u32,
+        value: V,
+        left: Option<Rc<Node<V>>>,
+        right: Option<Rc<Node<V>>>,
+    ) -> (res: Rc<Node<V>>)
         requires exists|lo: int, hi: int| #[trigger] bst(left, lo, hi), exists|lo: int, hi: int| #[trigger] bst(right, lo, hi),
         ensures *res == Node::Data(DataNode { key, value, left, right, size: (1 + nsz(left) + nsz(right)) as usize }),
     {
@@ -40,23 +230,29 @@ t=sub(t,''') -> Rc<Node<V>> {''',''') -> (res: Rc<Node<V>>)
             lemma_bst_u32(left, lo, hi);
             let (lo2, hi2) = choose|lo: int, hi: int| #[trigger] bst(right, lo, hi);
             lemma_bst_u32(right, lo2, hi2);
-        }''')
-out.append(t)
-# ---- size (132-137)
-t=L(132,137)
-t=sub(t,'fn size(node: &Option<Rc<Node<V>>>) -> usize {','''fn size(node: &Option<Rc<Node<V>>>) -> (r: usize)
+        }
+        let size = 1 + Self::size(&left) + Self::size(&right);
+        Rc::new(Node::Data(DataNode {
+            key,
+            value,
+            left,
+            right,
+            size,
+        }))
+    }
+    fn size(node: &Option<Rc<Node<V>>>) -> (r: usize)
         requires exists|lo: int, hi: int| #[trigger] bst(*node, lo, hi),
         ensures r == nsz(*node),
         decreases *node,
-    {''')
-t=sub(t,'|n| match n.as_ref() {','''|n: &Rc<Node<V>>| -> (r: usize)
+    {
+        node.as_ref().map_or(0, |n: &Rc<Node<V>>| -> (r: usize)
             requires **n is Data, (**n)->Data_0.size == nsz(Some(*n)), ensures r == nsz(Some(*n)),
-          { match n.as_ref() {''')
-t=sub(t,'        })','        } })')
-out.append(t)
-# ---- rotate_left (153-195)
-t=L(154,195)
-t=sub(t,'fn rotate_left(mut node: Rc<Node<V>>) -> Rc<Node<V>> {','''fn rotate_left(mut node: Rc<Node<V>>) -> (res: Rc<Node<V>>)
+          { match n.as_ref() {
+            Node::Data(data_node) => data_node.size,
+            Node::Mapping(mapping_node) => Self::size(&mapping_node.child),
+        } })
+    }
+    fn rotate_left(mut node: Rc<Node<V>>) -> (res: Rc<Node<V>>)
         requires tb(Some(node)),
         ensures
             tb(Some(res)),
@@ -73,19 +269,50 @@ t=sub(t,'fn rotate_left(mut node: Rc<Node<V>>) -> Rc<Node<V>> {','''fn rotate_le
                 && wbal(nsz(lft(Some(node))) + nsz(lft(rgt(Some(node)))) + 1, nsz(rgt(rgt(Some(node)))))) ==> bal(Some(res)),
     {
         let ghost node0 = node;
-        let ghost (glo, ghi) = choose|lo: int, hi: int| #[trigger] bst(Some(node), lo, hi);''')
-t=sub(t,'''        // Check if right child is a data node''','''        let ghost right0 = right;
+        let ghost (glo, ghi) = choose|lo: int, hi: int| #[trigger] bst(Some(node), lo, hi);
+        // Only rotate data nodes
+        let is_data = matches!(node.as_ref(), Node::Data(_));
+        if !is_data {
+            return node;
+        }
+
+        let node_mut = Rc::make_mut(&mut node);
+        let data_node = match node_mut {
+            Node::Data(d) => d,
+            Node::Mapping(_) => return node,
+        };
+
+        let mut right = match data_node.right.take() {
+            Some(r) => r,
+            None => return node, // Can't rotate without right child
+        };
+
+        let ghost right0 = right;
         proof { assert(bst(Some(right0), dn(Some(node0)).key as int, ghi)); assert(*right is Data); }
-        // Check if right child is a data node''')
-t=sub(t,'''        data_node.right = right_data.left.take();
-        data_node.update_size_internal();''','''        data_node.right = right_data.left.take();
+        // Check if right child is a data node
+        let right_is_data = matches!(right.as_ref(), Node::Data(_));
+        if !right_is_data {
+            // Put right back and return without rotating
+            data_node.right = Some(right);
+            return node;
+        }
+
+        let right_mut = Rc::make_mut(&mut right);
+        let right_data = match right_mut {
+            Node::Data(d) => d,
+            Node::Mapping(_) => {
+                data_node.right = Some(right);
+                return node;
+            }
+        };
+
+        data_node.right = right_data.left.take();
         proof {
             assert(bst(data_node.left, glo, dn(Some(node0)).key as int));
             assert(bst(data_node.right, dn(Some(node0)).key as int, dn(Some(right0)).key as int));
         }
-        data_node.update_size_internal();''')
-t=sub(t,'''        right_data.left = Some(node);
-        right_data.update_size_internal();''','''        right_data.left = Some(node);
+        data_node.update_size_internal();
+        right_data.left = Some(node);
         proof {
             assert(bst(Some(node), glo, dn(Some(right0)).key as int));
             assert(bst(right_data.right, dn(Some(right0)).key as int, ghi));
@@ -104,12 +331,11 @@ t=sub(t,'''        right_data.left = Some(node);
             }
             assert(bal(Some(node)) == (wbal(nsz(dn(Some(node0)).left), nsz(dn(Some(right0)).left)) && bal(dn(Some(node0)).left) && bal(dn(Some(right0)).left)));
             assert(bal(Some(right)) == (wbal(nsz(Some(node)), nsz(dn(Some(right0)).right)) && bal(Some(node)) && bal(dn(Some(right0)).right)));
-        }''')
-out.append(t)
+        }
 
-# ---- rotate_right (198-239)
-t=L(198,239)
-t=sub(t,'fn rotate_right(mut node: Rc<Node<V>>) -> Rc<Node<V>> {','''fn rotate_right(mut node: Rc<Node<V>>) -> (res: Rc<Node<V>>)
+        right
+    }
+    fn rotate_right(mut node: Rc<Node<V>>) -> (res: Rc<Node<V>>)
         requires tb(Some(node)),
         ensures
             tb(Some(res)),
@@ -126,19 +352,50 @@ t=sub(t,'fn rotate_right(mut node: Rc<Node<V>>) -> Rc<Node<V>> {','''fn rotate_r
                 && wbal(nsz(lft(lft(Some(node)))), nsz(rgt(lft(Some(node)))) + nsz(rgt(Some(node))) + 1)) ==> bal(Some(res)),
     {
         let ghost node0 = node;
-        let ghost (glo, ghi) = choose|lo: int, hi: int| #[trigger] bst(Some(node), lo, hi);''')
-t=sub(t,'''        // Check if left child is a data node''','''        let ghost left0 = left;
+        let ghost (glo, ghi) = choose|lo: int, hi: int| #[trigger] bst(Some(node), lo, hi);
+        // Only rotate data nodes
+        let is_data = matches!(node.as_ref(), Node::Data(_));
+        if !is_data {
+            return node;
+        }
+
+        let node_mut = Rc::make_mut(&mut node);
+        let data_node = match node_mut {
+            Node::Data(d) => d,
+            Node::Mapping(_) => return node,
+        };
+
+        let mut left = match data_node.left.take() {
+            Some(l) => l,
+            None => return node, // Can't rotate without left child
+        };
+
+        let ghost left0 = left;
         proof { assert(bst(Some(left0), glo, dn(Some(node0)).key as int)); assert(*left is Data); }
-        // Check if left child is a data node''')
-t=sub(t,'''        data_node.left = left_data.right.take();
-        data_node.update_size_internal();''','''        data_node.left = left_data.right.take();
+        // Check if left child is a data node
+        let left_is_data = matches!(left.as_ref(), Node::Data(_));
+        if !left_is_data {
+            // Put left back and return without rotating
+            data_node.left = Some(left);
+            return node;
+        }
+
+        let left_mut = Rc::make_mut(&mut left);
+        let left_data = match left_mut {
+            Node::Data(d) => d,
+            Node::Mapping(_) => {
+                data_node.left = Some(left);
+                return node;
+            }
+        };
+
+        data_node.left = left_data.right.take();
         proof {
             assert(bst(data_node.right, dn(Some(node0)).key as int, ghi));
             assert(bst(data_node.left, dn(Some(left0)).key as int, dn(Some(node0)).key as int));
         }
-        data_node.update_size_internal();''')
-t=sub(t,'''        left_data.right = Some(node);
-        left_data.update_size_internal();''','''        left_data.right = Some(node);
+        data_node.update_size_internal();
+        left_data.right = Some(node);
         proof {
             assert(bst(Some(node), dn(Some(left0)).key as int, ghi));
             assert(bst(left_data.left, glo, dn(Some(left0)).key as int));
@@ -157,12 +414,12 @@ t=sub(t,'''        left_data.right = Some(node);
             }
             assert(bal(Some(node)) == (wbal(nsz(dn(Some(left0)).right), nsz(dn(Some(node0)).right)) && bal(dn(Some(left0)).right) && bal(dn(Some(node0)).right)));
             assert(bal(Some(left)) == (wbal(nsz(dn(Some(left0)).left), nsz(Some(node))) && bal(dn(Some(left0)).left) && bal(Some(node))));
-        }''')
-out.append(t)
+        }
 
-# ---- balance (242-332)
-t=L(242,332)
-t=sub(t,'fn balance(mut node: Rc<Node<V>>) -> Rc<Node<V>> {','''#[verifier::spinoff_prover] fn balance(mut node: Rc<Node<V>>) -> (res: Rc<Node<V>>)
+        left
+    }
+    #[verifier::spinoff_prover]
+    fn balance(mut node: Rc<Node<V>>) -> (res: Rc<Node<V>>)
         requires tb(Some(node)),
             bal(lft(Some(node))), bal(rgt(Some(node))),
         ensures
@@ -173,8 +430,22 @@ t=sub(t,'fn balance(mut node: Rc<Node<V>>) -> Rc<Node<V>> {','''#[verifier::spin
         let ghost node0 = node;
         let ghost (glo, ghi) = choose|lo: int, hi: int| #[trigger] bst(Some(node), lo, hi);
         proof { lemma_bst_u32(Some(node), glo, ghi); assert(is_data(Some(node))); 
-                assert(bst(lft(Some(node)), glo, dn(Some(node)).key as int)); assert(bst(rgt(Some(node)), dn(Some(node)).key as int, ghi)); }''')
-t=sub(t,'''        if right_weight > DELTA * left_weight {''','''        proof {
+                assert(bst(lft(Some(node)), glo, dn(Some(node)).key as int)); assert(bst(rgt(Some(node)), dn(Some(node)).key as int, ghi)); }
+        // Only balance data nodes
+        let (left_size, right_size) = match node.as_ref() {
+            Node::Data(data_node) => (Self::size(&data_node.left), Self::size(&data_node.right)),
+            Node::Mapping(_) => return node, // Don't balance mapping nodes
+        };
+
+        if left_size + right_size < 2 {
+            return node;
+        }
+
+        // Original WBT algorithm: use weights (size + 1) instead of just sizes
+        let left_weight = left_size + 1;
+        let right_weight = right_size + 1;
+
+        proof {
             if near(nsz(lft(Some(node0))), nsz(rgt(Some(node0)))) && !((right_weight as int) > 3 * (left_weight as int)) && !((left_weight as int) > 3 * (right_weight as int)) {
                 lemma_near_bal(nsz(lft(Some(node0))), nsz(rgt(Some(node0))));
             }
@@ -193,10 +464,40 @@ t=sub(t,'''        if right_weight > DELTA * left_weight {''','''        proof {
             }
             assert(bal(Some(node0)) == (wbal(nsz(l), nsz(r)) && bal(l) && bal(r)));
         }
-        if right_weight > DELTA * left_weight {''')
-t=sub(t,'''                        data_node.right = data_node.right.take().map(Self::rotate_right);
+        if right_weight > DELTA * left_weight {
+            // Right-heavy, need to check right child for rotation type
+            let right_child_sizes = match node.as_ref() {
+                Node::Data(data_node) => {
+                    if let Some(ref right) = data_node.right {
+                        match right.as_ref() {
+                            Node::Data(right_data) => {
+                                Some((Self::size(&right_data.left), Self::size(&right_data.right)))
+                            }
+                            Node::Mapping(_) => None, // Can't balance across mapping
+                        }
+                    } else {
+                        None
                     }
-''','''                        data_node.right = data_node.right.take().map(Self::rotate_right);
+                }
+                Node::Mapping(_) => None,
+            };
+
+            if let Some((right_left_size, right_right_size)) = right_child_sizes {
+                let right_left_weight = right_left_size + 1;
+                let right_right_weight = right_right_size + 1;
+
+                if right_left_weight < GAMMA * right_right_weight {
+                    // Single rotation
+                    proof {
+                        let l = lft(Some(node0)); let r = rgt(Some(node0));
+                        if near(nsz(l), nsz(r)) { lemma_single_l(nsz(l), nsz(lft(r)), nsz(rgt(r))); }
+                    }
+                    Self::rotate_left(node)
+                } else {
+                    // Double rotation
+                    let node_mut = Rc::make_mut(&mut node);
+                    if let Node::Data(data_node) = node_mut {
+                        data_node.right = data_node.right.take().map(Self::rotate_right);
                     }
                     proof {
                         let r0 = rgt(Some(node0)); let r1 = rgt(Some(node));
@@ -213,10 +514,45 @@ t=sub(t,'''                        data_node.right = data_node.right.take().map(
                         let l = lft(Some(node0)); let rl = lft(r0); let rr = rgt(r0);
                         if near(nsz(l), nsz(r0)) { lemma_double_l(nsz(l), nsz(lft(rl)), nsz(rgt(rl)), nsz(rr)); }
                     }
-''')
-t=sub(t,'''                        data_node.left = data_node.left.take().map(Self::rotate_left);
+                    Self::rotate_left(node)
+                }
+            } else {
+                node // Can't balance, return as-is
+            }
+        } else if left_weight > DELTA * right_weight {
+            // Left-heavy, need to check left child for rotation type
+            let left_child_sizes = match node.as_ref() {
+                Node::Data(data_node) => {
+                    if let Some(ref left) = data_node.left {
+                        match left.as_ref() {
+                            Node::Data(left_data) => {
+                                Some((Self::size(&left_data.left), Self::size(&left_data.right)))
+                            }
+                            Node::Mapping(_) => None, // Can't balance across mapping
+                        }
+                    } else {
+                        None
                     }
-''','''                        data_node.left = data_node.left.take().map(Self::rotate_left);
+                }
+                Node::Mapping(_) => None,
+            };
+
+            if let Some((left_left_size, left_right_size)) = left_child_sizes {
+                let left_left_weight = left_left_size + 1;
+                let left_right_weight = left_right_size + 1;
+
+                if left_right_weight < GAMMA * left_left_weight {
+                    // Single rotation
+                    proof {
+                        let l = lft(Some(node0)); let r = rgt(Some(node0));
+                        if near(nsz(l), nsz(r)) { lemma_single_r(nsz(r), nsz(rgt(l)), nsz(lft(l))); }
+                    }
+                    Self::rotate_right(node)
+                } else {
+                    // Double rotation
+                    let node_mut = Rc::make_mut(&mut node);
+                    if let Node::Data(data_node) = node_mut {
+                        data_node.left = data_node.left.take().map(Self::rotate_left);
                     }
                     proof {
                         let l1 = lft(Some(node));
@@ -234,28 +570,21 @@ t=sub(t,'''                        data_node.left = data_node.left.take().map(Se
                         let r = rgt(Some(node0)); let lr = rgt(l0); let ll = lft(l0);
                         if near(nsz(l0), nsz(r)) { lemma_double_r(nsz(r), nsz(rgt(lr)), nsz(lft(lr)), nsz(ll)); }
                     }
-''')
-t=sub(t,'''                    // Single rotation
-                    Self::rotate_left(node)''','''                    // Single rotation
-                    proof {
-                        let l = lft(Some(node0)); let r = rgt(Some(node0));
-                        if near(nsz(l), nsz(r)) { lemma_single_l(nsz(l), nsz(lft(r)), nsz(rgt(r))); }
-                    }
-                    Self::rotate_left(node)''')
-t=sub(t,'''                    // Single rotation
-                    Self::rotate_right(node)''','''                    // Single rotation
-                    proof {
-                        let l = lft(Some(node0)); let r = rgt(Some(node0));
-                        if near(nsz(l), nsz(r)) { lemma_single_r(nsz(r), nsz(rgt(l)), nsz(lft(l))); }
-                    }
-                    Self::rotate_right(node)''')
-open('balance_dbg.txt','w').write(t)
-out.append(t)
-
-# ---- insert_simple (336-389)
-t=L(336,389)
-t=sub(t,'fn insert_simple(','#[verifier::spinoff_prover] fn insert_simple(')
-t=sub(t,''') -> (Option<Rc<Node<V>>>, Option<V>) {''',''') -> (res: (Option<Rc<Node<V>>>, Option<V>))
+                    Self::rotate_right(node)
+                }
+            } else {
+                node // Can't balance, return as-is
+            }
+        } else {
+            node
+        }
+    }
+    #[verifier::spinoff_prover]
+    fn insert_simple(
+        node: Option<Rc<Node<V>>>,
+        key: u32,
+        value: V,
+    ) -> (res: (Option<Rc<Node<V>>>, Option<V>))
         requires tb(node), bal(node),
         ensures tb(res.0), bal(res.0), res.0 is Some,
             view(res.0) == view(node).insert(key, value),
@@ -269,8 +598,11 @@ t=sub(t,''') -> (Option<Rc<Node<V>>>, Option<V>) {''',''') -> (res: (Option<Rc<N
             let (l0, h0) = choose|lo: int, hi: int| #[trigger] bst(node, lo, hi);
             lemma_bst_u32(node, l0, h0);
             lemma_bst_widen(node, if l0 < -1 { -1 } else { l0 }, if h0 > 0x1_0000_0000 { 0x1_0000_0000 } else { h0 }, glo, ghi);
-        }''')
-t=sub(t,'''                return (Some(Rc::new(Node::new(key, value))), None);''','''                proof {
+        }
+        let mut node = match node {
+            Some(n) => n,
+            None => {
+                proof {
                     assert forall|rc: Rc<Node<V>>| *rc == Node::Data(DataNode { key, value, left: None, right: None, size: 1 })
                         implies #[trigger] tb(Some(rc)) && bal(Some(rc)) && view(Some(rc)) == view(node0).insert(key, value) && nsz(Some(rc)) == 1 by {
                         assert(bst::<V>(None, -1, key as int)); assert(bst::<V>(None, key as int, 0x1_0000_0000));
@@ -281,8 +613,11 @@ t=sub(t,'''                return (Some(Rc::new(Node::new(key, value))), None);'
                         assert(view(Some(rc)) =~= view(node0).insert(key, value));
                     }
                 }
-                return (Some(Rc::new(Node::new(key, value))), None);''')
-t=sub(t,'''        let node_mut: &mut Node<V> = Rc::make_mut(&mut node);''','''        proof {
+                return (Some(Rc::new(Node::new(key, value))), None);
+            }
+        };
+
+        proof {
             assert(is_data(node0));
             lemma_view_dom(lft(node0), glo, dn(node0).key as int);
             lemma_view_dom(rgt(node0), dn(node0).key as int, ghi);
@@ -290,22 +625,48 @@ t=sub(t,'''        let node_mut: &mut Node<V> = Rc::make_mut(&mut node);''',''' 
             assert(bst(lft(node0), glo, dn(node0).key as int)); assert(bst(rgt(node0), dn(node0).key as int, ghi));
             assert(tb(lft(node0))); assert(tb(rgt(node0)));
         }
-        let node_mut: &mut Node<V> = Rc::make_mut(&mut node);''')
-t=sub(t,'''                data_node.left = new_left;
-                data_node.update_size_internal();''','''                data_node.left = new_left;
+        let node_mut: &mut Node<V> = Rc::make_mut(&mut node);
+        let data_node: &mut DataNode<V> = match node_mut {
+            Node::Data(data_node) => data_node,
+            Node::Mapping(mapping_node) => {
+                // For the simple version, we recurse into mapping nodes transparently
+                let (new_child, old_value) =
+                    Self::insert_simple(mapping_node.child.take(), key, value);
+                mapping_node.child = new_child;
+                return (Some(node), old_value);
+            }
+        };
+
+        let old_value: Option<V> = match key.cmp(&data_node.key) {
+            Ordering::Equal => {
+                let old = mem::replace(&mut data_node.value, value);
+                Some(old)
+            }
+            Ordering::Less => {
+                let old_left = data_node.left.take();
+                let (new_left, old_value) = Self::insert_simple(old_left, key, value);
+                data_node.left = new_left;
                 proof {
                     lemma_tb_bounds(new_left, if glo < -1 { -1 } else { glo }, dn(node0).key as int);
                     lemma_bst_u32(node0, glo, ghi);
                 }
-                data_node.update_size_internal();''')
-t=sub(t,'''                data_node.right = new_right;
-                data_node.update_size_internal();''','''                data_node.right = new_right;
+                data_node.update_size_internal();
+                old_value
+            }
+            Ordering::Greater => {
+                let old_right = data_node.right.take();
+                let (new_right, old_value) = Self::insert_simple(old_right, key, value);
+                data_node.right = new_right;
                 proof {
                     lemma_tb_bounds(new_right, dn(node0).key as int, if ghi > 0x1_0000_0000 { 0x1_0000_0000 } else { ghi });
                     lemma_bst_u32(node0, glo, ghi);
                 }
-                data_node.update_size_internal();''')
-t=sub(t,'''        let balanced_node = if old_value.is_none() {''','''        proof {
+                data_node.update_size_internal();
+                old_value
+            }
+        };
+
+        proof {
             lemma_bst_u32(node0, glo, ghi);
             let glo2 = if glo < -1 { -1 } else { glo }; let ghi2: int = if ghi > 0x1_0000_0000 { 0x1_0000_0000 } else { ghi };
             assert(is_data(Some(node)));
@@ -332,10 +693,17 @@ t=sub(t,'''        let balanced_node = if old_value.is_none() {''','''        pr
                 assert(bal(Some(node)) == (wbal(nsz(lft(Some(node))), nsz(rgt(Some(node)))) && bal(lft(Some(node))) && bal(rgt(Some(node)))));
             }
         }
-        let balanced_node = if old_value.is_none() {''')
-out.append(t)
-out.append('}')
-out.append('''
+        let balanced_node = if old_value.is_none() {
+            // Only balance if we actually inserted a new node
+            Self::balance(node)
+        } else {
+            node
+        };
+
+        (Some(balanced_node), old_value)
+    }
+}
+
 pub proof fn lemma_tb_bounds<V: Clone>(t: Tree<V>, lo: int, hi: int)
     requires tb(t), forall|k: u32| #[trigger] view(t).contains_key(k) ==> lo < k < hi
     ensures bst(t, lo, hi)
@@ -406,9 +774,8 @@ pub proof fn lemma_min_max<V: Clone>(b: Tree<V>, l2: int, h2: int, lo: int, hi: 
         },
     }
 }
-''')
 
-out.append('''
+
 #[verifier::external_body]
 fn apply_mappings(mappings: &[&PrefixTree2], val: u32) -> Option<u32> { unimplemented!() }
 
@@ -419,60 +786,81 @@ pub struct WBTreeMap<V: Clone> {
 impl<V: Clone> WBTreeMap<V> {
     pub open spec fn wf(&self) -> bool { tb(self.root) && bal(self.root) && self.len == nsz(self.root) }
     pub open spec fn view(&self) -> Map<u32, V> { view(self.root) }
-''')
-t=L(730,741)   # new + insert
-t=sub(t,'pub const fn new() -> Self {','''pub const fn new() -> (r: Self)
+
+    pub const fn new() -> (r: Self)
         ensures r.wf(), r@ == Map::<u32, V>::empty(),
     {
-        proof { assert(bst::<V>(None, -1, 0x1_0000_0000)); }''')
-t=sub(t,'pub fn insert(&mut self, key: u32, value: V) -> Option<V> {','''pub fn insert(&mut self, key: u32, value: V) -> (r: Option<V>)
+        proof { assert(bst::<V>(None, -1, 0x1_0000_0000)); }
+        WBTreeMap { root: None, len: 0 }
+    }
+
+    pub fn insert(&mut self, key: u32, value: V) -> (r: Option<V>)
         requires old(self).wf(),
         ensures final(self).wf(), final(self)@ == old(self)@.insert(key, value),
             r == (if old(self)@.contains_key(key) { Some(old(self)@[key]) } else { None::<V> }),
     {
-        proof { let (l0, h0) = choose|lo: int, hi: int| #[trigger] bst(self.root, lo, hi); lemma_bst_u32(self.root, l0, h0); lemma_keys_lt_len(self.root); }''')
-out.append(t)
-t=L(743,779)   # get
-t=sub(t,'pub fn get(&self, key: &u32) -> Option<&V> {','''pub fn get(&self, key: &u32) -> (r: Option<&V>)
+        proof { let (l0, h0) = choose|lo: int, hi: int| #[trigger] bst(self.root, lo, hi); lemma_bst_u32(self.root, l0, h0); lemma_keys_lt_len(self.root); }
+        let (new_root, old_value) = Node::insert_simple(self.root.take(), key, value);
+        self.root = new_root;
+        if old_value.is_none() {
+            self.len += 1;
+        }
+        old_value
+    }
+    pub fn get(&self, key: &u32) -> (r: Option<&V>)
         requires self.wf(),
         ensures match r { Some(v) => self@.contains_key(*key) && *v == self@[*key], None => !self@.contains_key(*key) },
     {
-        let ghost (glo, ghi) = choose|lo: int, hi: int| #[trigger] bst(self.root, lo, hi);''')
-t=sub(t,'        loop {','''        loop
+        let ghost (glo, ghi) = choose|lo: int, hi: int| #[trigger] bst(self.root, lo, hi);
+        // Accumulate mappings as we traverse
+        let mut mappings: Vec<&PrefixTree2> = Vec::new();
+        let mut current = &self.root;
+        loop
             invariant mappings@.len() == 0, tb(*current),
                 view(*current).contains_key(*key) == self@.contains_key(*key),
                 self@.contains_key(*key) ==> view(*current)[*key] == self@[*key],
             decreases *current,
-        {''')
-t=sub(t,'''                            Some(mk) => match key.cmp(&mk) {''','''                            Some(mk) => { proof {
+        {
+            match current {
+                None => return None,
+                Some(node) => match node.as_ref() {
+                    Node::Data(data_node) => {
+                        // Apply all accumulated mappings to the stored key
+                        let mapped_key = if mappings.is_empty() {
+                            Some(data_node.key)
+                        } else {
+                            apply_mappings(&mappings, data_node.key)
+                        };
+
+                        match mapped_key {
+                            None => {
+                                // Key is not in mapping domain, skip this subtree
+                                // This shouldn't happen in a well-formed tree, but handle it
+                                return None;
+                            }
+                            Some(mk) => { proof {
                                     let c = *current; let (lo, hi) = choose|lo: int, hi: int| #[trigger] bst(c, lo, hi);
                                     lemma_view_dom(lft(c), lo, dn(c).key as int); lemma_view_dom(rgt(c), dn(c).key as int, hi);
                                     assert(bst(lft(c), lo, dn(c).key as int)); assert(bst(rgt(c), dn(c).key as int, hi));
                                     assert(view(c) == view(lft(c)).union_prefer_right(view(rgt(c))).insert(dn(c).key, dn(c).value));
-                                } match key.cmp(&mk) {''')
-t=sub(t,'''                                Ordering::Equal => return Some(&data_node.value),
-                            },''','''                                Ordering::Equal => return Some(&data_node.value),
-                            } },''')
-out.append(t)
-
-t=L(781,817)   # get_mut
-t=sub(t,'pub fn get_mut(&mut self, key: &u32) -> Option<&mut V> {','''#[verifier::spinoff_prover] pub fn get_mut(&mut self, key: &u32) -> (r: Option<&mut V>)
-        requires old(self).wf(),
-        ensures
-            match r {
-                Some(v) => old(self)@.contains_key(*key) && *v == old(self)@[*key]
-                    && final(self)@ == old(self)@.insert(*key, *final(v)) && final(self).wf(),
-                None => !old(self)@.contains_key(*key) && final(self)@ == old(self)@ && final(self).wf(),
+                                } match key.cmp(&mk) {
+                                Ordering::Less => current = &data_node.left,
+                                Ordering::Greater => current = &data_node.right,
+                                Ordering::Equal => return Some(&data_node.value),
+                            } },
+                        }
+                    }
+                    Node::Mapping(mapping_node) => {
+                        mappings.push(&mapping_node.mapping);
+                        current = &mapping_node.child;
+                    }
+                },
             }
-    {''')
-t=sub(t,'        loop {','''        loop
-            invariant mappings@.len() == 0, tb(*current),
-            decreases *current,
-        {''')
-out.append(t)
-out.append('}')
-out.append('''
+        }
+    }
+}
+
 pub proof fn lemma_keys_lt_len<V: Clone>(t: Tree<V>) ensures true {}
-''')
-out.append(open('tail.rs').read())
-open('t3.rs','w').write('\n'.join(out))
+
+} // verus!
+fn main() {}
